@@ -70,10 +70,10 @@ Definition ex_cfg : config :=
                   <| cf_revocation := true |> <| cf_introspection := true |>).
 Definition ex_client : client :=
   mkClient 1 false [GClientCredentials; GAuthorizationCode; GImplicit] ["code"; "id_token"] ["https://c1.example/cb"] "openid"
-           CibaNone false false false false false false false 0 false.
+           CibaNone false false false false false false false 0 false None.
 Definition ex_w : world := mkWorld ex_cfg [ex_client].
 Definition ex_bind : bind_in := mkBind None 0.
-Definition ex_treq : treq := mkTReq (mkCred 1 true) ex_bind "openid" 0 "" 0 PkEmpty 0 HgOk BaApprove [] AsNone.
+Definition ex_treq : treq := mkTReq (mkCred 1 true) ex_bind "openid" 0 "" 0 PkEmpty 0 HgOk BaApprove [] AsNone None.
 Definition plan_at (k : nat) (f : fault) : nat -> fault := plan_of [(k, f)].
 
 (* non-vacuity: a plan that hits and yields an error; a fault-free run that yields a token whose
@@ -94,7 +94,7 @@ Proof. intros s []. Qed.
    grant lookup failed, and the token stays active.  Recorded as a known finding (the storage
    API has no way to tell "not found" from "failed": internal/storage returns a plain error). *)
 Definition ex_grant : gsession :=
-  mkGSession (mint 0 KGrantId) (mint 0 KAtOpaque) 0 300%Z 300%Z 0 GClientCredentials "c1" 1 "openid" "openid" 0 0 [] [].
+  mkGSession (mint 0 KGrantId) (mint 0 KAtOpaque) 0 300%Z 300%Z 0 GClientCredentials "c1" 1 "openid" "openid" 0 0 [] [] [] [].
 Definition ex_store_g : store := mkStore [] [] [ex_grant].
 Definition ex_qreq : qreq := mkQReq (mkCred 1 true) (PExact (mint 0 KAtOpaque)) true.
 Theorem fault_negative_answer_everywhere_refuted : exists w n now o plan st,
@@ -266,9 +266,9 @@ Print Assumptions faulty_histories_safe.
    grant exists, nothing was answered; the restarted instance refuses the code *)
 Definition ex_sess : asession :=
   mkASession (mint 0 KSessId) 1 "alice" 0 0 0 (mint 0 KCode) "openid" 0 0 60%Z 0 ""
-             (empty_params <| p_redirect := "https://c1.example/cb" |> <| p_resp_type := "code" |> <| p_scopes := "openid" |>) [].
+             (empty_params <| p_redirect := "https://c1.example/cb" |> <| p_resp_type := "code" |> <| p_scopes := "openid" |>) [] [].
 Definition ex_store_s : store := mkStore [] [ex_sess] [].
-Definition ex_code_req : treq := mkTReq (mkCred 1 true) ex_bind "" (mint 0 KCode) "https://c1.example/cb" 0 PkEmpty 0 HgOk BaApprove [] AsNone.
+Definition ex_code_req : treq := mkTReq (mkCred 1 true) ex_bind "" (mint 0 KCode) "https://c1.example/cb" 0 PkEmpty 0 HgOk BaApprove [] AsNone None.
 Example ex_crash_between :
   let h := handler ex_w 1 10%Z (OpToken GAuthorizationCode ex_code_req) in
   count_calls h ex_store_s = 3%nat /\
@@ -296,11 +296,11 @@ Print Assumptions crash_prefix_without_discipline_refuted.
 Definition ex_sess_two : asession :=
   mkASession (mint 0 KSessId) 1 "" 0 (mint 0 KCallback) 0 (mint 0 KCode) "" 0 0 600%Z 0 "n"
              (empty_params <| p_redirect := "https://c1.example/cb" |> <| p_resp_type := "id_token" |>
-                <| p_scopes := "openid" |> <| p_nonce := "n" |>) [].
+                <| p_scopes := "openid" |> <| p_nonce := "n" |>) [] [].
 Theorem unbacked_without_one_index_refuted : exists w n now o plan st,
   ~ all_backed n (fst (fst (run_fault plan 0 (handler w n now o) st))) (snd (fst (run_fault plan 0 (handler w n now o) st))).
 Proof.
-  exists ex_w, 1%nat, 10%Z, (OpCallback (mkCbReq (mint 0 KCallback) (PolSuccess "alice" "openid" []))), (fun _ => FNone),
+  exists ex_w, 1%nat, 10%Z, (OpCallback (mkCbReq (mint 0 KCallback) (PolSuccess "alice" "openid" [] []))), (fun _ => FNone),
          (mkStore [] [ex_sess_two] []).
   intros (_ & C & _). vm_compute in C. destruct (C _ (or_introl eq_refl)) as [s [[] _]].
 Qed.
